@@ -15,7 +15,7 @@ WANT = ('C03',)
 
 def run(run, driver_ok=True, deep=False):
     tier = 'thorough' if deep else run.tier
-    clsrun.class_property_run(run, driver_ok, WANT, per_class=40 if tier == 'quick' else 800, n_mut=12, truncations=20, suffixes=True)
+    clsrun.class_property_run(run, driver_ok, WANT, per_class=40 if tier == 'quick' else 300, n_mut=12, truncations=20, suffixes=True)
     extra(run, tier)
 
 
